@@ -1,5 +1,6 @@
 import Bng.Drv.Common
 import Bng.Drv.XdpDhcp
+import Bng.Drv.TcSafe
 /-
   bngdrv-c03 <component> < trace      (development convenience: the C03/C07 components alone;
   the same components are registered in Main.lean)
@@ -7,7 +8,8 @@ import Bng.Drv.XdpDhcp
 open Bng.Drv
 
 def components : List (String × Component) := [
-  ("xdpdhcp", XdpDhcpDrv.component)
+  ("xdpdhcp", XdpDhcpDrv.component),
+  ("tcprogs", TcSafeDrv.component)
 ]
 
 def main (args : List String) : IO UInt32 := do
